@@ -50,6 +50,7 @@ type c9Entry struct {
 	Labels map[string]string `json:"labels"` // nil for marker entries
 	Msg    string            `json:"msg"`
 	Err    string            `json:"err"` // "", "eof", "u<n>"
+	Val    float64           `json:"val,omitempty"` // matrix entries (engines-metric stream)
 }
 
 type c9Case struct {
@@ -57,8 +58,11 @@ type c9Case struct {
 	From     int64         `json:"from"`
 	To       int64         `json:"to"`
 	Limit    int64         `json:"limit"`
+	Step     int64         `json:"step,omitempty"`
+	Asc      bool          `json:"asc,omitempty"` // ctx.OrderASC (direction=forward)
 	Batches  [][]c9Entry   `json:"batches"`   // one batching
 	Batching [][][]c9Entry `json:"batchings"` // all batchings of the same flat list (parent side only)
+	Mode     string        `json:"mode,omitempty"` // "" = logql_transpiler_v2.Plan with the getter replaced; "internal" = internal_planner.Plan on the whole pipeline (engines stream)
 }
 
 type c9Out struct {
@@ -83,7 +87,7 @@ func (u *c9Upstream) Process(ctx *shared.PlannerContext, in chan []shared.LogEnt
 		for _, b := range u.batches {
 			es := make([]shared.LogEntry, len(b))
 			for i, e := range b {
-				es[i] = shared.LogEntry{TimestampNS: e.Ts, Fingerprint: e.Fp, Message: e.Msg}
+				es[i] = shared.LogEntry{TimestampNS: e.Ts, Fingerprint: e.Fp, Message: e.Msg, Value: e.Val}
 				if e.Labels != nil { // every entry owns its map, as with the real getter
 					es[i].Labels = make(map[string]string, len(e.Labels))
 					for k, v := range e.Labels {
@@ -256,6 +260,12 @@ func c9Canon(out [][]shared.LogEntry) (string, string) {
 
 func c9RunImpl(c c9Case) (res c9Out) {
 	res.Internal = -1
+	if c.Mode == "internal" {
+		return c9RunInternal(c)
+	}
+	if c.Mode == "internal-post" || c.Mode == "post" {
+		return c9RunPost(c)
+	}
 	script, err := logql_parser.Parse(c.Query)
 	if err != nil {
 		res.Skip = "parse: " + err.Error()
@@ -310,7 +320,7 @@ func c9RunImpl(c c9Case) (res c9Out) {
 	ctx, cancel := context.WithCancel(context.Background())
 	defer cancel()
 	pc := &shared.PlannerContext{From: time.Unix(0, c.From), To: time.Unix(0, c.To), Limit: c.Limit, Ctx: ctx,
-		CancelCtx: func() {}, Step: time.Second}
+		CancelCtx: func() {}, Step: time.Second, OrderASC: c.Asc}
 	ch, err := top.Process(pc, nil)
 	if err != nil {
 		res.Skip = "process: " + err.Error()
@@ -722,9 +732,21 @@ func c9Json(msg string) string {
 	var toks []string
 	var val func(d *jx.Decoder) bool // false: failed inside
 	val = func(d *jx.Decoder) bool {
+		// the source text of an object / array, when it can be read to its end (`Decoder.Raw`)
+		text := func() string {
+			var raw jx.Raw
+			if err := d.Capture(func(d *jx.Decoder) error {
+				r, err := d.Raw()
+				raw = append(jx.Raw(nil), r...)
+				return err
+			}); err != nil {
+				return ""
+			}
+			return hx(string(raw))
+		}
 		switch d.Next() {
 		case jx.Object:
-			toks = append(toks, "O")
+			toks = append(toks, "O"+text())
 			good := true
 			err := d.Obj(func(d *jx.Decoder, key string) error {
 				toks = append(toks, "k"+hx(key))
@@ -741,7 +763,7 @@ func c9Json(msg string) string {
 			toks = append(toks, "E")
 			return good
 		case jx.Array:
-			toks = append(toks, "A")
+			toks = append(toks, "A"+text())
 			good := true
 			err := d.Arr(func(d *jx.Decoder) error {
 				if !val(d) {
@@ -773,6 +795,11 @@ func c9Json(msg string) string {
 			toks = append(toks, "R"+hx(raw.String()))
 			return true
 		}
+	}
+	if jx.Valid([]byte(msg)) {
+		toks = append(toks, "V1")
+	} else {
+		toks = append(toks, "V0")
 	}
 	val(jx.DecodeStr(msg))
 	return strings.Join(toks, ",")
@@ -1195,6 +1222,7 @@ func c9GenCase(r *h.Rng, maxEntries, nBatchings int, big bool) *c9Gen {
 	span := nb*g.Dur + h.Pick(r, []int64{0, 0, 1, g.Dur / 2, g.Dur - 1})
 	g.Case.From, g.Case.To = from, from+span
 	g.Case.Limit = h.Pick(r, []int64{0, 0, 1, 2, 3, 10, 100, 5000})
+	g.Case.Asc = r.Bool() // first_over_time / last_over_time read the direction of the request
 	// series
 	ns := r.Range(1, 4)
 	type series struct {
@@ -1379,7 +1407,7 @@ func c9CollectRegexes(s *logql_parser.LogQLScript, out map[string]string) bool {
 }
 
 func (t *c9Tables) line(mode string, c c9Case, plan string, flushAt, maxSeries int, bs [][]c9Entry) string {
-	return fmt.Sprintf("c09run %s %d %d %d %d %d %s %s %s %s %s %s", mode, c.From, c.To, c.Limit, flushAt, maxSeries, plan,
+	return fmt.Sprintf("c09run %s %d %d %d %d %d %d %s %s %s %s %s %s", mode, c.From, c.To, c.Limit, flushAt, maxSeries, b2i(c.Asc), plan,
 		c9Table(t.re), c9Table(t.tpl), c9Table(t.js), c9Table(t.lf), c9SerBatches(bs))
 }
 
@@ -1743,6 +1771,19 @@ func c09(r *h.Result, rng *h.Rng, tier string, replay string) error {
 		if err != nil {
 			return err
 		}
+		var kind struct {
+			Replay struct {
+				Stream  string      `json:"stream"`
+				Engines *c9EngCase  `json:"engines"`
+				Metric  *c9MetCase  `json:"metric"`
+			} `json:"replay"`
+		}
+		if err := json.Unmarshal(b, &kind); err == nil && kind.Replay.Stream == "engines" && kind.Replay.Engines != nil {
+			return c9Engines(r, rng.Fork(), 0, []*c9EngCase{kind.Replay.Engines})
+		}
+		if kind.Replay.Stream == "engines-metric" && kind.Replay.Metric != nil {
+			return c9EnginesMetric(r, rng.Fork(), 0, []*c9MetCase{kind.Replay.Metric})
+		}
 		var rp struct {
 			Replay c9Case `json:"replay"`
 		}
@@ -1771,6 +1812,18 @@ func c09(r *h.Result, rng *h.Rng, tier string, replay string) error {
 	rng = h.NewRng(rng.U64() ^ 0xC09C09C09) // h.NewRng(s) and h.NewRng(s+1) are one step apart: re-seed from an output
 	if err := c9PathStream(r, rng.Fork(), map[bool]int{true: 1500, false: 20000}[tier == "quick"]); err != nil {
 		return err
+	}
+	if err := c9Engines(r, rng.Fork(), map[bool]int{true: 500, false: 6000}[tier == "quick"], nil); err != nil {
+		return err
+	}
+	if err := c9Refusals(r); err != nil {
+		return err
+	}
+	if err := c9EnginesMetric(r, rng.Fork(), map[bool]int{true: 400, false: 5000}[tier == "quick"], nil); err != nil {
+		return err
+	}
+	if os.Getenv("VERIF_C09_ONLY") == "engines" { // development aid: one stream only
+		return nil
 	}
 	nCases, nBatchings, maxEntries := 1200, 3, 60
 	if tier != "quick" {
